@@ -78,14 +78,20 @@ impl SemanticState {
 
     // todo: define an actual error type
     pub fn add_file(&mut self, base_path: &Path, path: &Path) -> anyhow::Result<()> {
-        let relative_path = path.strip_prefix(base_path).unwrap_or(path);
-        if !relative_path.is_relative() {
+        // `./types` and `types` are the same directory: compare without `.` components
+        let plain = |p: &Path| -> std::path::PathBuf {
+            p.components()
+                .filter(|c| !matches!(c, std::path::Component::CurDir))
+                .collect()
+        };
+        let (plain_base, plain_path) = (plain(base_path), plain(path));
+        let Ok(relative_path) = plain_path.strip_prefix(&plain_base) else {
             anyhow::bail!(
                 "file `{}` is not inside the base directory `{}`, so it has no module path",
                 path.display(),
                 base_path.display()
             );
-        }
+        };
         self.add_module(
             &parser::parse_str(&std::fs::read_to_string(path)?).map_err(|e| {
                 let proc_macro2::LineColumn { line, column } = e.span().start();
